@@ -77,6 +77,8 @@ class Check(PropertyCheck):
             if len(set(disp)) >= 2 or disp.count("done") >= 2:
                 nontriv.add(json.dumps(fl.scn_brief(scn), sort_keys=True))
         self.disagreements = dis
+        if getattr(self.gen, "codec_broken", False):
+            self.broken.append(Broken("correspondence", "lbzip2 fails as a stdin->stdout filter on valid input (used as codec instance)", ""))
         for dd in dis[:5]:
             self.broken.append(Broken("correspondence", "operand-loop model vs lbzip2 differ on `lbzip2 %s`" % " ".join(dd["argv"]),
                                       "; ".join(dd["diffs"])[:1500]))
